@@ -401,7 +401,7 @@ func compositeHelpersFor(c *spec.Case, hidden bool) string {
 			fmt.Fprintf(&sb, "func %s(h uint32) %s { return %s{%s(7): %s(h)} }\n\n", mk(id), ex, ex, mk(t.Key), mk(t.Elem))
 			fmt.Fprintf(&sb, "func %s(x %s) uint32 {\n\tfor _, v := range x {\n\t\treturn %s(v)\n\t}\n\treturn 0\n}\n\n", vh(id), ex, vh(t.Elem))
 		case spec.KChan:
-			fmt.Fprintf(&sb, "func %s(h uint32) %s {\n\tc := make(chan %s, 1)\n\tvrt.RegChan(c, h)\n\treturn c\n}\n\n", mk(id), ex, c.Expr(t.Elem, ""))
+			fmt.Fprintf(&sb, "func %s(h uint32) %s {\n\tc := make(chan (%s), 1)\n\tvrt.RegChan(c, h)\n\treturn c\n}\n\n", mk(id), ex, c.Expr(t.Elem, ""))
 			fmt.Fprintf(&sb, "func %s(x %s) uint32 { return vrt.ChanHash(x) }\n\n", vh(id), ex)
 		case spec.KFunc:
 			params, call := "", ""
